@@ -83,6 +83,13 @@ def discharge(assertions, timeout_ms=20000, both=False):
         out["seconds"] = round(dt + dt2, 4)
         if r2 != "unknown":
             out.update(verdict=r2, backend="cvc5", note=f"z3 unknown ({reason})")
+            return out
+        # both back ends ran out of time: verdicts must not flip when the machine is busy (all cores taken by other
+        # checks), so ask z3 once more with four times the budget before calling the obligation undecided
+        r3, model3, dt3, reason3 = run_z3(assertions, timeout_ms * 4)
+        out["seconds"] = round(dt + dt2 + dt3, 4)
+        if r3 != "unknown":
+            out.update(verdict=r3, backend="z3", model=model3, note=f"decided on the retry with a {timeout_ms * 4} ms budget")
         return out
     if both:
         r2, dt2 = run_cvc5(assertions, timeout_ms)
